@@ -8,7 +8,9 @@ after replacing the per-run directory prefixes:
   hash     PYTHONHASHSEED in {1, 2, 4242, random}
   clock    virtual perf_counter / time.time bound into core/apply/snapshot: epoch offsets, time running
            backwards, perf_counter frozen / slow / 1000x (time budgets set far above, they are declared inputs)
-  warm     the scenario executed twice in one process on fresh states, process-global caches kept
+  warm     the scenario executed twice in one process on fresh states, process-global caches kept; and
+           "warm-perturbed": executed first under a perturbed copy of its config (every numeric leaf moved inside its
+           range), then under the real one - module state keyed on part of a config cannot hide behind an equal key
   jitter   1 us switch interval + random delays in the store reads (parallel T1 scenarios)
   cwd      another working directory
   now      ctx.now unset (now_ms supplied) under a shifted datetime.now
@@ -53,6 +55,28 @@ def gen_scenario(rng):
         cfg["t2"].pop("tiers", None)
         turns = gen_turns(rng, world, n=(3, 6))
         boot = rng.random() < 0.7
+    if rng.random() < 0.3:
+        # propagation-sensitive class: decay configured, a per-node budget just above a seed's own activation and texts naming several labels, so that the
+        # spreading factors decide which nodes saturate (the result is sensitive to every T1 knob)
+        cfg["t1"]["decay"] = rng.choice([{"mode": "attn_quad", "alpha": rng.choice([0.8, 0.3, 2.0])}, {"mode": "attn_quad", "alpha": rng.choice([0.5, 1.0])},
+                                        {"mode": "exp_floor", "rate": rng.choice([0.6, 0.9]), "floor": 0.05}])
+        cfg["t1"]["node_budget"] = rng.choice([1.2, 1.5, 1.05])
+        cfg["t1"].pop("queue_budget", None)
+        cfg["t1"].pop("iter_cap", None)
+        cfg["t1"].pop("radius_cap", None)
+        labs = sorted({n[1] for g in world["graphs"].values() for n in g["nodes"] if n[1]})
+        for t in turns:
+            t["text"] = " ".join(rng.sample(labs, min(len(labs), 3))) + " " + t["text"]
+    if rng.random() < 0.15:
+        # logical clock at / around the epoch (now_ms = 0 is a legal logical time): memories dated relative to it
+        import datetime as _dt
+        base = rng.choice([0, 0, 1000, 86400000])
+        turns = gen_turns(rng, world, base_ms=base)
+        for j, e in enumerate(world["eps"]):
+            e["ts"] = (_dt.datetime.fromtimestamp(base / 1000, tz=_dt.timezone.utc) - _dt.timedelta(days=(j * 7) % 50, hours=j)).isoformat().replace("+00:00", "Z")
+        cfg["t2"]["ranking"] = {"alpha_sim": 0.3, "beta_recency": 1.0, "gamma_importance": 0.0}
+        cfg["t2"]["exact_recent_days"] = 30
+        cfg["t2"].pop("tiers", None)
     # some scenarios boot from an (empty) snapshot directory: the first turn runs the real boot loader
     return {"world": world, "cfg": cfg, "turns": turns, "boot_from_snapshot": boot}
 
@@ -62,6 +86,7 @@ def variants_for(sc, rng, tier):
           ("clock", {}, {"vclock": {"pc_step": 0.0, "wall": 1.0e9, "wall_step": 0.0}}),
           ("clock", {}, {"vclock": {"pc_step": 0.0137, "wall": 4.0e9, "wall_step": -3.5}}),
           ("warm", {}, {"warm": True}),
+          ("warm-perturbed", {}, {"warm_perturbed": True}),
           ("cwd", {}, {"cwd": "/var/tmp/c01_cwd_%d" % rng.randint(0, 10 ** 9)})]
     par_on = bool(((sc["cfg"].get("perf") or {}).get("parallel") or {}).get("enabled"))
     if par_on or tier != "quick":
@@ -144,10 +169,10 @@ def check_scenario(sc, sess: Session, rng, tier):
         diffs = diff_bundles(base, vb)
         paths = diff_paths(base, vb)
         mech = f"{name}:differs"
-        if name in ("warm", "jitter"):
+        if name in ("warm", "jitter", "warm-perturbed"):
             only_diag = all((p.startswith("t1.jsonl:") and p.split(":", 1)[1] in DIAG_T1) or (p.startswith("t2.jsonl:") and p.split(":", 1)[1] in DIAG_T2) for p in paths)
             if only_diag and paths:
-                mech = f"{name}:stage-cache-diagnostics-in-canonical-logs"
+                mech = f"{'warm' if name == 'warm-perturbed' else name}:stage-cache-diagnostics-in-canonical-logs"
         if name == "now-unset":
             mech = "now-unset:retrieval-follows-wall-clock-date"
         sess.violation(mech, case, {"paths": paths[:8], "diffs": diffs[:4]})
